@@ -54,8 +54,10 @@ def corrupt(tr, field, fn):
 ok = True
 for fname, module, field, fn, kw in CASES:
     try:
-        data = json.load(open(f"/verif/work/traces/{fname}.json"))
-    except FileNotFoundError:
+        import glob, os
+        cands = [p_ for p_ in glob.glob(f"/verif/work/traces/{fname}.json") + glob.glob(f"/verif/work/traces/{fname}_[0-9]*.json")]
+        data = json.load(open(max(cands, key=os.path.getmtime)))          # large batches are validated in chunks <tag>_0, <tag>_1, ...
+    except (FileNotFoundError, ValueError):
         print(f"{module:16s} no recorded traces ({fname}); run ./check first")
         ok = False
         continue
